@@ -13,3 +13,8 @@ import TsVerif.C06.CursorProps
 #print axioms TsVerif.C06.cursor_first_child_spec
 #print axioms TsVerif.C06.sibling_internal_spec
 #print axioms TsVerif.C06.cursor_next_sibling_spec
+#print axioms TsVerif.C06.later_siblings_split
+#print axioms TsVerif.C06.cursor_next_sibling_index_spec
+#print axioms TsVerif.C06.cursor_node_agree_first
+#print axioms TsVerif.C06.cursor_node_agree_next
+#print axioms TsVerif.C06.cursor_field_spec
